@@ -182,9 +182,12 @@ def feature_inputs(name, tier):
         'meta-all': ['-1 ', '2 ', '1.5 ', 'true ', 'x '], 'lookaheads': ['a', 'b', 'c', 'd', ' '],
         'ws-directive': ['a-b', 'c', ' ', '\t', '(*x*)', '#x\n'], 'long-choice': ['a' * 9, 'b' * 9, 'j' * 9, 'a', ' '],
         'unicode': ['é', 'こんにちは', '世界', 'w', 'x', ' '],
+        'long-gather': ['a' * 20, 'b' * 20, ',', ' '], 'long-join': ['a' * 20, 'c' * 20, ';', ' '],
+        'long-left-join': ['a' * 20, 'b' * 20, '+'], 'long-right-join': ['a' * 20, 'b' * 20, '+'],
+        'long-closures': ['a' * 20 + ' ', 'b' * 20 + ' ', 'd' * 20 + ' ', 'g' * 20 + ' ', 'i' * 20], 'long-named': ['a' * 20 + ' ', 'c' * 20 + ' ', 'd' * 20, 'a'],
     }.get(name, ['a', 'b', ' '])
     n = 4 if tier == 'quick' else 5
-    if name in ('include', 'pynames', 'meta-all', 'lookaheads', 'unicode', 'token-rule-names', 'cut-in-group-optional'):
+    if name in ('include', 'pynames', 'meta-all', 'lookaheads', 'unicode', 'token-rule-names', 'cut-in-group-optional') or name.startswith('long-'):
         n = 5       # their longest alternative needs that many lexemes
     if name == 'long-choice':
         n = 2
